@@ -114,17 +114,19 @@ static inline std::string gen_name(int i) {
 
 static const int WRITABLE[] = {T_I32, T_I64, T_F64, T_BA, T_BOOL, T_F32, T_FLBA};
 
-static inline Node gen_flat_leaf(int i, bool allow_optional) {
+static inline Node gen_flat_leaf(int i, bool allow_optional, bool allow_unsigned = false) {
     Node n; n.leaf = true;
     n.name = gen_name(i);
     n.type = WRITABLE[draw(7)];
     n.rep = allow_optional && draw(2) ? OPT : REQ;
     n.tlen = n.type == T_FLBA ? range(1, 20) : 0;
+    // an integer column annotated as unsigned: same bits, but statistics and predicates order them as unsigned numbers
+    if (allow_unsigned && (n.type == T_I32 || n.type == T_I64) && draw(4) == 0) { n.logical = 10; n.lp1 = n.type == T_I32 ? 32 : 64; n.lp2 = 0; }
     return n;
 }
 
 // flat table: schema + rows per row group + content
-struct FlatOpts { int max_cols = 8; int max_rgs = 4; bool allow_big = true; bool allow_wide = true; bool allow_optional = true; bool allow_medium = true; };
+struct FlatOpts { int max_cols = 8; int max_rgs = 4; bool allow_big = true; bool allow_wide = true; bool allow_optional = true; bool allow_medium = true; bool allow_unsigned = false; };
 
 static inline void fill_chunk(Chunk& ch, const Col& c, int64_t rows) {
     ch.def.clear(); ch.rep.assign((size_t)rows, 0); ch.vals.clear();
@@ -204,7 +206,7 @@ static inline Table gen_flat_table(const FlatOpts& o) {
     if (o.allow_wide && draw(60) == 59) ncols = 70 + (int)draw(230);
     if (o.allow_wide && g_row_cap == 0 && draw(12000) == 11999) ncols = 9990 + (int)draw(20);      // around the 10000-element limit the footer parser sets itself
     else if (o.allow_medium && draw(12) == 11) ncols = 9 + (int)draw(12);      // 9..20: crosses the 15-element Thrift list-header switch
-    for (int i = 0; i < ncols; i++) t.root.kids.push_back(gen_flat_leaf(i, o.allow_optional));
+    for (int i = 0; i < ncols; i++) t.root.kids.push_back(gen_flat_leaf(i, o.allow_optional, o.allow_unsigned));
     derive_leaves(t);
     int nrg = 1 + (int)draw((uint32_t)o.max_rgs);
     if (o.allow_medium && draw(16) == 15) nrg = 5 + (int)draw(14);                 // 5..18 row groups
